@@ -185,6 +185,130 @@ fn start_pred_lit(sp: &StartPredicate) -> (String, String) {
     }
 }
 
+
+fn u8s_json(v: &[u8]) -> String {
+    let mut s = String::from("[");
+    for (i, b) in v.iter().enumerate() {
+        if i > 0 {
+            s.push_str(", ");
+        }
+        write!(s, "{}", b).unwrap();
+    }
+    s.push(']');
+    s
+}
+
+/// Structured form of an instruction for the python-side symbolic bytecode interpreter (symvm.py).
+fn insn_json(i: &Insn) -> String {
+    match i {
+        Insn::Goal => "{\"op\": \"Goal\"}".into(),
+        Insn::JustFail => "{\"op\": \"JustFail\"}".into(),
+        Insn::Char(c) => format!("{{\"op\": \"Char\", \"c\": {}}}", c),
+        Insn::StartOfLine { multiline } => format!("{{\"op\": \"StartOfLine\", \"multiline\": {}}}", multiline),
+        Insn::EndOfLine { multiline } => format!("{{\"op\": \"EndOfLine\", \"multiline\": {}}}", multiline),
+        Insn::MatchAny => "{\"op\": \"MatchAny\"}".into(),
+        Insn::MatchAnyExceptLineTerminator => "{\"op\": \"MatchAnyExceptLineTerminator\"}".into(),
+        Insn::EnterLoop(f) => format!(
+            "{{\"op\": \"EnterLoop\", \"loop_id\": {}, \"min\": {}, \"max\": {}, \"greedy\": {}, \"exit\": {}}}",
+            f.loop_id, f.min_iters, f.max_iters, f.greedy, f.exit
+        ),
+        Insn::LoopAgain { begin } => format!("{{\"op\": \"LoopAgain\", \"begin\": {}}}", begin),
+        Insn::Loop1CharBody { min_iters, max_iters, greedy } => format!(
+            "{{\"op\": \"Loop1CharBody\", \"min\": {}, \"max\": {}, \"greedy\": {}}}",
+            min_iters, max_iters, greedy
+        ),
+        Insn::Jump { target } => format!("{{\"op\": \"Jump\", \"target\": {}}}", target),
+        Insn::Alt { secondary } => format!("{{\"op\": \"Alt\", \"secondary\": {}}}", secondary),
+        Insn::BeginCaptureGroup(g) => format!("{{\"op\": \"BeginCaptureGroup\", \"g\": {}}}", g),
+        Insn::EndCaptureGroup(g) => format!("{{\"op\": \"EndCaptureGroup\", \"g\": {}}}", g),
+        Insn::ResetCaptureGroup(g) => format!("{{\"op\": \"ResetCaptureGroup\", \"g\": {}}}", g),
+        Insn::BackRef { group, icase } => format!("{{\"op\": \"BackRef\", \"g\": {}, \"icase\": {}}}", group, icase),
+        Insn::Bracket(idx) => format!("{{\"op\": \"Bracket\", \"idx\": {}}}", idx),
+        Insn::AsciiBracket(bm) => {
+            let mut bytes = Vec::new();
+            for b in 0..=255u8 {
+                if crate::bytesearch::ByteSet::contains(bm, b) {
+                    bytes.push(b);
+                }
+            }
+            format!("{{\"op\": \"AsciiBracket\", \"bytes\": {}}}", u8s_json(&bytes))
+        }
+        Insn::Lookahead { negate, start_group, end_group, continuation } => format!(
+            "{{\"op\": \"Lookahead\", \"negate\": {}, \"start_group\": {}, \"end_group\": {}, \"continuation\": {}}}",
+            negate, start_group, end_group, continuation
+        ),
+        Insn::Lookbehind { negate, start_group, end_group, continuation } => format!(
+            "{{\"op\": \"Lookbehind\", \"negate\": {}, \"start_group\": {}, \"end_group\": {}, \"continuation\": {}}}",
+            negate, start_group, end_group, continuation
+        ),
+        Insn::WordBoundary { invert } => format!("{{\"op\": \"WordBoundary\", \"invert\": {}}}", invert),
+        Insn::WordBoundaryUnicodeICase { invert } => {
+            format!("{{\"op\": \"WordBoundaryUnicodeICase\", \"invert\": {}}}", invert)
+        }
+        Insn::CharSet(v) => format!("{{\"op\": \"CharSet\", \"chars\": [{}, {}, {}, {}]}}", v[0], v[1], v[2], v[3]),
+        Insn::ByteSet2(b) => format!("{{\"op\": \"ByteSet\", \"bytes\": {}}}", u8s_json(&b.0)),
+        Insn::ByteSet3(b) => format!("{{\"op\": \"ByteSet\", \"bytes\": {}}}", u8s_json(&b.0)),
+        Insn::ByteSet4(b) => format!("{{\"op\": \"ByteSet\", \"bytes\": {}}}", u8s_json(&b.0)),
+        Insn::ByteSeq1(v) => format!("{{\"op\": \"ByteSeq\", \"bytes\": {}}}", u8s_json(v)),
+        Insn::ByteSeq2(v) => format!("{{\"op\": \"ByteSeq\", \"bytes\": {}}}", u8s_json(v)),
+        Insn::ByteSeq3(v) => format!("{{\"op\": \"ByteSeq\", \"bytes\": {}}}", u8s_json(v)),
+        Insn::ByteSeq4(v) => format!("{{\"op\": \"ByteSeq\", \"bytes\": {}}}", u8s_json(v)),
+        Insn::ByteSeq5(v) => format!("{{\"op\": \"ByteSeq\", \"bytes\": {}}}", u8s_json(v)),
+        Insn::ByteSeq6(v) => format!("{{\"op\": \"ByteSeq\", \"bytes\": {}}}", u8s_json(v)),
+        Insn::ByteSeq7(v) => format!("{{\"op\": \"ByteSeq\", \"bytes\": {}}}", u8s_json(v)),
+        Insn::ByteSeq8(v) => format!("{{\"op\": \"ByteSeq\", \"bytes\": {}}}", u8s_json(v)),
+        Insn::ByteSeq9(v) => format!("{{\"op\": \"ByteSeq\", \"bytes\": {}}}", u8s_json(v)),
+        Insn::ByteSeq10(v) => format!("{{\"op\": \"ByteSeq\", \"bytes\": {}}}", u8s_json(v)),
+        Insn::ByteSeq11(v) => format!("{{\"op\": \"ByteSeq\", \"bytes\": {}}}", u8s_json(v)),
+        Insn::ByteSeq12(v) => format!("{{\"op\": \"ByteSeq\", \"bytes\": {}}}", u8s_json(v)),
+        Insn::ByteSeq13(v) => format!("{{\"op\": \"ByteSeq\", \"bytes\": {}}}", u8s_json(v)),
+        Insn::ByteSeq14(v) => format!("{{\"op\": \"ByteSeq\", \"bytes\": {}}}", u8s_json(v)),
+        Insn::ByteSeq15(v) => format!("{{\"op\": \"ByteSeq\", \"bytes\": {}}}", u8s_json(v)),
+        Insn::ByteSeq16(v) => format!("{{\"op\": \"ByteSeq\", \"bytes\": {}}}", u8s_json(v)),
+    }
+}
+
+fn start_pred_json(sp: &StartPredicate) -> String {
+    match sp {
+        StartPredicate::Arbitrary => "{\"kind\": \"Arbitrary\"}".into(),
+        StartPredicate::ByteSet1(b) => format!("{{\"kind\": \"ByteSet\", \"bytes\": {}}}", u8s_json(b)),
+        StartPredicate::ByteSet2(b) => format!("{{\"kind\": \"ByteSet\", \"bytes\": {}}}", u8s_json(b)),
+        StartPredicate::ByteSet3(b) => format!("{{\"kind\": \"ByteSet\", \"bytes\": {}}}", u8s_json(b)),
+        StartPredicate::ByteSeq(f) => format!("{{\"kind\": \"ByteSeq\", \"bytes\": {}}}", u8s_json(f.needle())),
+        StartPredicate::ByteBracket(bm) => {
+            let mut bytes = Vec::new();
+            for b in 0..=255u8 {
+                if bm.contains(b) {
+                    bytes.push(b);
+                }
+            }
+            format!("{{\"kind\": \"ByteSet\", \"bytes\": {}}}", u8s_json(&bytes))
+        }
+        StartPredicate::StartAnchored => "{\"kind\": \"StartAnchored\"}".into(),
+    }
+}
+
+pub fn program_json(cr: &CompiledRegex) -> String {
+    let insns: Vec<String> = cr.insns.iter().map(insn_json).collect();
+    let mut brs = Vec::new();
+    for b in &cr.brackets {
+        let ivs: Vec<String> = b.cps.intervals().iter().map(|iv| format!("[{}, {}]", iv.first, iv.last)).collect();
+        brs.push(format!("{{\"invert\": {}, \"ivs\": [{}]}}", b.invert, ivs.join(", ")));
+    }
+    let names: Vec<String> = cr.group_names.iter().map(|n| format!("{:?}", n.as_ref())).collect();
+    format!(
+        "{{\"insns\": [{}], \"brackets\": [{}], \"start_pred\": {}, \"loops\": {}, \"groups\": {}, \"group_names\": [{}], \"unicode\": {}, \"icase\": {}}}",
+        insns.join(", "),
+        brs.join(", "),
+        start_pred_json(&cr.start_pred),
+        cr.loops,
+        cr.groups,
+        names.join(", "),
+        cr.flags.unicode,
+        cr.flags.icase
+    )
+}
+
 pub fn program_literal(cr: &CompiledRegex) -> (String, Vec<&'static str>, String) {
     let mut s = String::new();
     s.push_str("CompiledRegex {\n        insns: vec![\n");
@@ -255,7 +379,8 @@ pub fn dump_json(pattern: &[u32], flagstr: &str, no_opt: bool) -> String {
             let (lit, kinds, spk) = program_literal(&cr);
             let ks: Vec<String> = kinds.iter().map(|k| format!("\"{}\"", k)).collect();
             format!(
-                "{{\"ok\": true, \"lit\": \"{}\", \"kinds\": [{}], \"start_pred\": \"{}\", \"groups\": {}, \"loops\": {}, \"ninsns\": {}}}",
+                "{{\"ok\": true, \"prog\": {}, \"lit\": \"{}\", \"kinds\": [{}], \"start_pred\": \"{}\", \"groups\": {}, \"loops\": {}, \"ninsns\": {}}}",
+                program_json(&cr),
                 esc(&lit),
                 ks.join(", "),
                 esc(&spk),
@@ -270,9 +395,41 @@ pub fn dump_json(pattern: &[u32], flagstr: &str, no_opt: bool) -> String {
 /// Run the real matcher natively (used to validate the generated oracle against the real engine
 /// on concrete sample inputs before any solver run: "validate the translator").
 pub fn find_from_json(pattern: &[u32], flagstr: &str, no_opt: bool, hay: &str, start: usize) -> String {
+    find_from_json2(pattern, flagstr, no_opt, hay, start, false)
+}
+
+/// The ASCII entry point (find_from_ascii).
+pub fn find_from_ascii_json(pattern: &[u32], flagstr: &str, no_opt: bool, hay: &str, start: usize) -> String {
     match compile(pattern, flags_from(flagstr, no_opt)) {
         Err(e) => format!("{{\"ok\": false, \"err\": {:?}}}", e),
         Ok(cr) => {
+            let re: crate::api::Regex = cr.into();
+            match re.find_from_ascii(hay, start).next() {
+                None => "{\"ok\": true, \"m\": null}".into(),
+                Some(m) => {
+                    let mut caps = Vec::new();
+                    for c in &m.captures {
+                        caps.push(match c {
+                            None => "null".to_string(),
+                            Some(r) => format!("[{}, {}]", r.start, r.end),
+                        });
+                    }
+                    format!("{{\"ok\": true, \"m\": [{}, {}], \"caps\": [{}]}}", m.range.start, m.range.end, caps.join(", "))
+                }
+            }
+        }
+    }
+}
+
+/// As find_from_json; with `nopred` the compiled start predicate is replaced by Arbitrary (every start
+/// offset is attempted), which is the reference the prefilter must agree with (C04).
+pub fn find_from_json2(pattern: &[u32], flagstr: &str, no_opt: bool, hay: &str, start: usize, nopred: bool) -> String {
+    match compile(pattern, flags_from(flagstr, no_opt)) {
+        Err(e) => format!("{{\"ok\": false, \"err\": {:?}}}", e),
+        Ok(mut cr) => {
+            if nopred {
+                cr.start_pred = StartPredicate::Arbitrary;
+            }
             let re: crate::api::Regex = cr.into();
             if !(start >= hay.len() || hay.is_char_boundary(start)) {
                 return "{\"ok\": true, \"skip\": true}".into();
@@ -290,6 +447,26 @@ pub fn find_from_json(pattern: &[u32], flagstr: &str, no_opt: bool, hay: &str, s
                     format!("{{\"ok\": true, \"m\": [{}, {}], \"caps\": [{}]}}", m.range.start, m.range.end, caps.join(", "))
                 }
             }
+        }
+    }
+}
+
+
+/// The interval table the real lookup returns for a property name (kind: gc / sc / scx / bin), as JSON.
+pub fn prop_table_json(kind: &str, name: &str) -> String {
+    use crate::unicodetables as ut;
+    let t: Option<&'static [crate::codepointset::Interval]> = match kind {
+        "gc" => ut::unicode_property_value_general_category_from_str(name).map(|v| ut::general_category_property_value_ranges(&v)),
+        "sc" => ut::unicode_property_value_script_from_str(name).map(|v| ut::script_value_ranges(&v)),
+        "scx" => ut::unicode_property_value_script_from_str(name).map(|v| ut::script_extensions_value_ranges(&v)),
+        "bin" => ut::unicode_property_binary_from_str(name).map(|v| ut::binary_property_ranges(&v)),
+        _ => None,
+    };
+    match t {
+        None => "{\"ok\": true, \"some\": false}".into(),
+        Some(t) => {
+            let ivs: Vec<String> = t.iter().map(|iv| format!("[{}, {}]", iv.first, iv.last)).collect();
+            format!("{{\"ok\": true, \"some\": true, \"ivs\": [{}]}}", ivs.join(", "))
         }
     }
 }
